@@ -274,6 +274,8 @@ class Executor:
         if isinstance(v, Tup):
             return len(v.items) > 0
         if isinstance(v, Obj):
+            if self.val.get("isnone:" + v.k) is True:
+                return False  # None is falsy
             return self.ask_bool("truthy:" + v.k)
         if isinstance(v, (BoundMethod, Func)):
             return True
@@ -285,6 +287,8 @@ class Executor:
         if isinstance(v, Obj):
             if v.nonnull:
                 return False
+            if self.val.get("truthy:" + v.k) is True:
+                return False  # a truthy value is not None
             return self.ask_bool("isnone:" + v.k)
         return False
 
@@ -564,7 +568,17 @@ class Executor:
             a, b = vkey(l), vkey(r)
             if isinstance(l, Const):
                 a, b = b, a
-            res = self.ask_bool(f"eq:{a}:{b}")
+            key = f"eq:{a}:{b}"
+            if key in self.val:
+                res = self.ask_bool(key)
+            elif self.val.get("isnone:" + a) is True:
+                res = False  # None equals no non-None constant
+            elif self.val.get("truthy:" + a) is False and b not in ("''", "b''", "0", "False", "None"):
+                res = False  # a falsy value equals no truthy constant
+            elif any(k.startswith(f"eq:{a}:") and v is True and k != key for k, v in self.val.items()):
+                res = False  # already known to equal a different constant
+            else:
+                res = self.ask_bool(key)
             return res if isinstance(op, ast.Eq) else not res
         if (numeric(l) or isinstance(l, Obj)) and (numeric(r) or isinstance(r, Obj)):
             return self.compare(op, self.num(l, node), self.num(r, node))
@@ -652,7 +666,9 @@ class Executor:
                         return Tup([Lin.k(v) for v in vals], "list")
                 if fn == "range" and all(isinstance(a, Lin) for a in args):
                     return Obj("range(" + ", ".join(vkey(a) for a in args) + ")")
-                k = f"{fn}(" + ", ".join(vkey(a) for a in args) + ")"
+                kws = [f"{kw.arg}={vkey(self.ev(kw.value, env))}" for kw in node.keywords if kw.arg is not None]
+                allargs = [("*" + vkey(self.ev(a.value, env))) if isinstance(a, ast.Starred) else vkey(self.ev(a, env)) for a in node.args] if any(isinstance(a, ast.Starred) for a in node.args) else [vkey(a) for a in args]
+                k = f"{fn}(" + ", ".join(allargs + kws) + ")"
                 self.calls.append((k, node, fn))
                 return Obj(k)
         # method call on self / inlining
